@@ -1,7 +1,11 @@
 package mocker
 
 import (
+	"reflect"
+	"unsafe"
+
 	"github.com/tencent/goom/internal/bytecode/stub"
+	"github.com/tencent/goom/internal/iface"
 )
 
 // C13 for interface mocks, in the environment in which a well-formed interface mock
@@ -80,4 +84,53 @@ func VC_C13_interface_mistakes() {
 	b.Reset()
 	verifAssert(vC13JV == nil, "C13.iface-mistakes.reset-leaves-untouched")
 	verifReached("C13.iface-mistakes")
+}
+
+// VC_C13_held_interface_mocker: a DefaultInterfaceMocker object held by the caller: after
+// a rejected Method(<unknown name>) (the panic recovered) it has no usable method: an
+// Apply / As().Return on that same object is rejected too and the variable stays nil - it
+// does not fall onto another method of the interface.
+func VC_C13_held_interface_mocker() {
+	vEnv()
+	stub.VerifResetMmap()
+	vC13JV = nil
+	m := NewDefaultInterfaceMocker("github.com/tencent/goom", &vC13JV, iface.NewContext())
+	validFirst := verifBool("validFirst")
+	if validFirst {
+		m.Method("Get")
+	}
+	rejected := false
+	func() {
+		defer func() {
+			if r := recover(); r != nil {
+				rejected = true
+			}
+		}()
+		m.Method("Nope")
+	}()
+	verifAssert(rejected, "C13.held.unknown-method-rejected")
+	good := func(ctx *IContext, i int) int { return 100 }
+	viaReturn := verifBool("viaReturn")
+	attempt := func() {
+		if viaReturn {
+			m.As(good).Return(1)
+		} else {
+			m.Apply(good)
+		}
+	}
+	if !validFirst {
+		vRejectedI(attempt, "C13.held.configuration-after-rejected-method")
+	} else {
+		// the method selected before the rejected call is still the selected one
+		attempt()
+		verifAssert(vC13JV != nil, "C13.held.earlier-valid-selection-kept")
+		if vC13JV != nil {
+			t := reflect.TypeOf(&vC13JV).Elem()
+			_, _, notImplGet := vDispatch(unsafe.Pointer(&vC13JV), vSlotOf(t, "Get"), "C13.held")
+			_, _, notImplPut := vDispatch(unsafe.Pointer(&vC13JV), vSlotOf(t, "put"), "C13.held")
+			verifAssert(!notImplGet && notImplPut, "C13.held.exactly-the-selected-method-mocked")
+		}
+		m.Cancel()
+	}
+	verifReached("C13.held")
 }
